@@ -137,6 +137,17 @@ def print_assumptions(module, theorems):
             pass
     return res, so
 
+def coqchk(module):
+    """Re-checks the compiled property module and everything it depends on with the independent checker;
+    returns (ok, summary text). Thorough tier only (takes a minute or more)."""
+    rc, so, se = sh(["timeout", "3000", "coqchk", "-o", "-silent", "-R", COQ, "Avro", "Avro.props." + module], cwd=COQ, timeout=3100)
+    out = so + se
+    i = out.find("CONTEXT SUMMARY")
+    summary = out[i:] if i >= 0 else out[-1500:]
+    ok = rc == 0 and "Axioms: <none>" in summary and "type-in-type: <none>" in summary \
+        and "unsafe (co)fixpoints: <none>" in summary and "positivity is assumed: <none>" in summary
+    return ok, " ".join(summary.split())
+
 def sha256_file(path):
     return hashlib.sha256(open(path, "rb").read()).hexdigest()
 
